@@ -78,11 +78,13 @@ class World:
         self.plan = None  # fault / peer plan of the solve being executed
         self.compile_count = 0
         self.eval_count = 0
+        self.eval_by_name = {}
         self.eval_after_exit = 0
         self.exited = False  # a solver entry of the current op has returned or raised
         self.cb_count = 0  # callback events within the current solve
         self.entry_count = 0  # solver entries within the current solve
         self.fired = []  # faults / peer behaviours that actually fired in this op
+        self.cb_raised = []  # exceptions that passed from one of optyx's callbacks into the solver
         self.knob_misses = []
         self.real_minimize = None
         self.real_linprog = None
@@ -252,9 +254,11 @@ class World:
         self.events = []
         self.warnings = []
         self.fired = []
+        self.cb_raised = []
         self.plan = plan
         self.compile_count = 0
         self.eval_count = 0
+        self.eval_by_name = {}
         self.eval_after_exit = 0
         self.exited = False
         self.cb_count = 0
@@ -318,11 +322,15 @@ class World:
         if p and "fault" in p and p["fault"]["site"] == "eval":
             f = p["fault"]
             self.eval_count += 1
+            self.eval_by_name[name] = self.eval_by_name.get(name, 0) + 1
             hit = False
             if "after_exit" in f:
                 if self.exited:
                     self.eval_after_exit += 1
                     hit = self.eval_after_exit == f["after_exit"]
+            elif "of" in f:
+                # the k-th evaluation of a callable of one kind (compile_hessian: the Hessian, ...)
+                hit = name == f["of"] and self.eval_by_name[name] == f["k"]
             else:
                 hit = self.eval_count == f["k"]
             if hit:
@@ -351,9 +359,13 @@ class World:
             self.cb_by_kind[kind] = self.cb_by_kind.get(kind, 0) + 1
             self._maybe_raise("cb", kind)
             p = self.plan
-            if p and "fault" in p and p["fault"]["site"] == "cbi" and self.cb_count == p["fault"]["k"]:
-                return self._call_with_inner_fault(fn, a, k, kind, p["fault"])
-            return fn(*a, **k)
+            try:
+                if p and "fault" in p and p["fault"]["site"] == "cbi" and self.cb_count == p["fault"]["k"]:
+                    return self._call_with_inner_fault(fn, a, k, kind, p["fault"])
+                return fn(*a, **k)
+            except BaseException as e:  # noqa: BLE001 - recorded and re-raised
+                self.cb_raised.append(type(e).__name__)
+                raise
 
         return wrapped
 
